@@ -286,7 +286,9 @@ pub fn gen_any_case(src: &mut Src, o: &AnyOpts) -> AnyCase {
             let desc = format!("vardct {}x{} classes {:?}", c.ih.width, c.ih.height, c.classes);
             let mut classes = c.classes.clone();
             classes.push("image:vardct".into());
-            AnyCase { bytes: c.bytes, classes, layouts: vec![c.layout], header_len: c.header_len, kind: "vardct", size: (c.ih.width, c.ih.height), orientation: c.ih.orientation, has_parallel_work: c.num_groups > 1 || c.fh.passes.num_passes > 1, has_neighbourhood_feature: true, desc }
+            // one layout per frame (ReferenceOnly / LF frames in front of the main frame, as for kind "multi")
+            let par = c.num_groups > 1 || c.fh.passes.num_passes > 1 || c.layouts.len() > 1;
+            AnyCase { bytes: c.bytes, classes, layouts: c.layouts, header_len: c.header_len, kind: "vardct", size: (c.ih.width, c.ih.height), orientation: c.ih.orientation, has_parallel_work: par, has_neighbourhood_feature: true, desc }
         }
     }
 }
